@@ -14,7 +14,20 @@ int main(int argc, char** argv) {
 		// (layout 4 rotates with the case number through the positions where a dimension other than 0 or 1 is convolved:
 		// dimension 2 of a 3-D table, dimensions 2 and 3 of a 4-D table)
 		static const int LND[] = {1, 2, 2, 3, 0}, LPOS[] = {0, 0, 1, 1, 0}, XND[] = {3, 4, 4}, XPOS[] = {2, 2, 3};
+		// Affine images of the case: source knots s*t + a, kernel knots s*tau + b.  The convolved surface is the same function of
+		// (x - a - b)/s, so the exact values of the lattice case are the oracle, while the knot sums are no longer exactly
+		// representable (0.1 spacing, thirds, an irrational scale with a large offset): coincident sums differ in the last bit.
+		static const double AFF[][3] = {{1, 0, 0}, {0.1, 0, 0}, {1.0 / 3.0, 0.7, -0.3}, {3.14159265358979, 1000.1, 0.001}};
+		const std::vector<double> t0 = t, tau0 = tau, rho0 = rho;
+		for (int aff = 0; aff < 4; aff++)
 		for (int layout = 0; layout < 5; layout++) {
+			if (aff && layout != 0 && layout != 1 + (int)((nc + aff) % 4)) continue;
+			const double sc = AFF[aff][0], sa = AFF[aff][1], sb = AFF[aff][2];
+			if (aff) {
+				for (size_t q = 0; q < t.size(); q++) t[q] = sc * t0[q] + sa;
+				for (size_t q = 0; q < tau.size(); q++) tau[q] = sc * tau0[q] + sb;
+				rho.clear(); for (double a : t) for (double b : tau) rho.push_back(a + b); std::sort(rho.begin(), rho.end());
+			} else { t = t0; tau = tau0; rho = rho0; }
 			int nd = layout < 4 ? LND[layout] : XND[nc % 3]; int pos = layout < 4 ? LPOS[layout] : XPOS[nc % 3];
 			TableSpec s; s.ndim = nd; std::vector<std::vector<float>> fac(nd); std::vector<std::vector<double>> okn(nd); std::vector<int> oord(nd);
 			for (int d = 0; d < nd; d++) {
@@ -43,20 +56,22 @@ int main(int argc, char** argv) {
 					if (pts.t == JV::ARR) for (auto& e : pts.a) pv.push_back({rd(e[0]), rd(e[1])});
 					for (auto& xv : pv) {
 						// a convolved knot field whose fully supported range has zero width cannot be evaluated at that one point (C01 known finding): not convolution's business
-						{ size_t na = rho.size() - worder - 1; if (xv.first == rho[na] && rho[worder] == rho[na]) continue; }
+						{ size_t na = rho0.size() - worder - 1; if (xv.first == rho0[na] && rho0[worder] == rho0[na]) continue; }
+						// the image of a point at the very ends of the knot range may round to just outside it
+						if (aff && (xv.first <= rho0.front() || xv.first >= rho0.back())) continue;
 						for (int rep = 0; rep < (nd == 1 ? 1 : 2); rep++) {
 							std::vector<double> x(nd); LD other = 1;
-							for (int d = 0; d < nd; d++) { if (d == pos) { x[d] = xv.first; continue; } double lo = okn[d][oord[d]], hi = okn[d][okn[d].size() - oord[d] - 1]; x[d] = lo + (hi - lo) * (0.1 + 0.8 * rng.unit());
+							for (int d = 0; d < nd; d++) { if (d == pos) { x[d] = aff ? sc * xv.first + sa + sb : xv.first; continue; } double lo = okn[d][oord[d]], hi = okn[d][okn[d].size() - oord[d] - 1]; x[d] = lo + (hi - lo) * (0.1 + 0.8 * rng.unit());
 								TableSpec s1; s1.ndim = 1; s1.order = {(uint32_t)oord[d]}; s1.knots = {okn[d]}; s1.coeffs = fac[d]; Table t1; PVA::build(t1, s1, PAD_NAN); int c1; double xx = x[d]; t1.searchcenters(&xx, &c1); other *= t1.ndsplineeval<double>(&xx, &c1, 0); }
 							std::vector<int> cen(nd); total++;
 							if (!tb.searchcenters(x.data(), cen.data())) { bad++; if (example.empty()) example = "lookup failed inside the convolved knot range at x=" + std::to_string(xv.first); continue; }
 							double got = tb.ndsplineeval<double>(x.data(), cen.data(), 0); LD want = (LD)xv.second * other;
 							LD tol = 4e-5L * (1 + cmax) * (1 + worder) * (1 + worder) * std::max<LD>(1, fabsl(other));
-							LD e = fabsl((LD)got - want); if (!(e <= tol)) { bad++; if (example.empty()) example = "x=" + std::to_string(xv.first) + " got " + std::to_string(got) + " want " + std::to_string((double)want); } else worst = std::max(worst, (double)(e / tol));
+							LD e = fabsl((LD)got - want); if (!(e <= tol)) { bad++; if (example.empty()) example = "x=" + std::to_string(x[pos]) + " got " + std::to_string(got) + " want " + std::to_string((double)want); } else worst = std::max(worst, (double)(e / tol));
 						}
 					}
 				}
-				JW w; w.i("case", nc).i("n", n).i("ntau", (long)tau.size()).i("layout", layout).s("api", api ? "c" : "cxx").b("completed", ok).s("err", err).b("meta_ok", meta).b("strides_ok", strides).i("points", total).i("bad", bad).d("worst", worst).s("example", example);
+				JW w; w.i("case", nc).i("n", n).i("ntau", (long)tau.size()).i("layout", layout).i("affine", aff).s("api", api ? "c" : "cxx").b("completed", ok).s("err", err).b("meta_ok", meta).b("strides_ok", strides).i("points", total).i("bad", bad).d("worst", worst).s("example", example);
 				w.emit(out);
 			}
 		}
